@@ -131,6 +131,8 @@ def run_case(rng, tier, res):
     nwords = rng.randint(30, 120) if tier == "quick" else rng.randint(30, 200)
     if mps == 512:
         nwords = rng.randint(600, 1300) // width + 20      # enough bytes to fill one or two 512-byte packets
+        if host_mode == "lazy":
+            host_mode = "bursts"                           # hundreds of short packets at a lazy pace would not fit the cycle budget
     words, flag_mode, gap_mode = make_words(rng, width, nwords)
 
     utmi = UTMIInterface()
